@@ -20,6 +20,7 @@ package control
 
 import (
 	"fmt"
+	"hash/fnv"
 	"net/netip"
 	"os"
 	"runtime"
@@ -180,6 +181,7 @@ type c13Sched struct {
 	resetSeen bool
 	closed    bool
 	excluded  int
+	stateHash uint64
 }
 
 func c13NewSched(nKeys int) *c13Sched {
@@ -283,7 +285,7 @@ func (s *c13Sched) yield(point string) {
 			if pr.qi == nil && !s.closed {
 				s.failf("harness: producer %d holds no identifiable queue for key %d", pr.id, pr.key)
 			}
-			if pr.qi != nil && !known && pr.qi.gid == 0 && c13HasPopHook() && !s.free {
+			if pr.qi != nil && !known && pr.qi.gid == 0 && c13HasPopHook() && !s.free && !s.closed {
 				// This producer has just created the queue. Its convoy is starting up
 				// and parks at convoy.beforeOverflowPop when it finds the channel
 				// empty; wait for that before enqueueing, so that the start-up order
@@ -398,6 +400,16 @@ func (s *c13Sched) liveProducers() int {
 func (s *c13Sched) checkQuiescent(final bool) {
 	s.mu.Lock()
 	defer s.mu.Unlock()
+	if s.pendingFresh != nil {
+		// Every goroutine is blocked and the convoy of the queue just created has
+		// still not reached its first empty-channel check: it found work in a
+		// channel that should have been empty (recycled dirty). Let the producer go
+		// on; the oracle below judges the rest.
+		close(s.pendingFresh)
+		s.pendingFresh, s.pendingFreshQ = nil, nil
+		s.classes["fresh_convoy_found_work"] = true
+	}
+	defer s.nameParked()
 	for ; s.execDone < len(s.execs); s.execDone++ {
 		e := s.execs[s.execDone]
 		t := e.task
@@ -409,6 +421,9 @@ func (s *c13Sched) checkQuiescent(final bool) {
 			continue
 		}
 		if s.closed {
+			if t.qi != nil && s.gidQueue[e.gid] == nil {
+				s.gidQueue[e.gid] = t.qi // naming only; nothing is judged after Close
+			}
 			continue
 		}
 		if !s.resetSeen {
@@ -446,42 +461,8 @@ func (s *c13Sched) checkQuiescent(final bool) {
 	if s.closed {
 		return
 	}
-	// A convoy that parks before it has run any task (convoy.beforeOverflowPop right
-	// after its start) is identified by elimination: producers run one at a time, so
-	// a step creates at most one queue and starts at most one worker.
-	var freshG []uint64
-	for _, p := range s.parked {
-		if p.prod == nil && s.gidQueue[p.gid] == nil {
-			dup := false
-			for _, g := range freshG {
-				dup = dup || g == p.gid
-			}
-			if !dup {
-				freshG = append(freshG, p.gid)
-			}
-		}
-	}
-	var freshQ []*c13QInfo
-	for _, qi := range s.queues {
-		if qi.gid == 0 {
-			freshQ = append(freshQ, qi)
-		}
-	}
-	if len(freshG) == 1 && len(freshQ) == 1 {
-		s.gidQueue[freshG[0]] = freshQ[0]
-		freshQ[0].gid = freshG[0]
-	}
-	// name parked goroutines deterministically
-	for _, p := range s.parked {
-		if p.prod != nil {
-			p.name = fmt.Sprintf("P%03d@%s", p.prod.id, p.point)
-		} else if qi := s.gidQueue[p.gid]; qi != nil {
-			p.name = fmt.Sprintf("C%03d@%s", qi.serial, p.point)
-		} else {
-			p.name = fmt.Sprintf("C???@%s", p.point)
-		}
-	}
-	sort.SliceStable(s.parked, func(i, j int) bool { return s.parked[i].name < s.parked[j].name })
+	s.bindFresh()
+	s.nameParked()
 
 	workerParked := map[*c13QInfo]bool{}
 	for _, p := range s.parked {
@@ -531,6 +512,81 @@ func (s *c13Sched) checkQuiescent(final bool) {
 			} else if qi.key != k {
 				s.failf("queue #%d of key %d is mapped under key %d", qi.serial, qi.key, k)
 			}
+		}
+	}
+}
+
+// bindFresh identifies a convoy that parked before it ran any task.
+func (s *c13Sched) bindFresh() {
+	// A convoy that parks before it has run any task (convoy.beforeOverflowPop right
+	// after its start) is identified by elimination: producers run one at a time, so
+	// a step creates at most one queue and starts at most one worker.
+	var freshG []uint64
+	for _, p := range s.parked {
+		if p.prod == nil && s.gidQueue[p.gid] == nil {
+			dup := false
+			for _, g := range freshG {
+				dup = dup || g == p.gid
+			}
+			if !dup {
+				freshG = append(freshG, p.gid)
+			}
+		}
+	}
+	var freshQ []*c13QInfo
+	for _, qi := range s.queues {
+		if qi.gid == 0 {
+			freshQ = append(freshQ, qi)
+		}
+	}
+	if len(freshG) == 1 && len(freshQ) == 1 {
+		s.gidQueue[freshG[0]] = freshQ[0]
+		freshQ[0].gid = freshG[0]
+	}
+}
+
+// nameParked gives parked goroutines deterministic names and sorts them (also
+// after Close, so that the drain order never depends on arrival order).
+func (s *c13Sched) nameParked() {
+	// name parked goroutines deterministically
+	for _, p := range s.parked {
+		if p.prod != nil {
+			p.name = fmt.Sprintf("P%03d@%s", p.prod.id, p.point)
+		} else if qi := s.gidQueue[p.gid]; qi != nil {
+			p.name = fmt.Sprintf("C%03d@%s", qi.serial, p.point)
+		} else {
+			p.name = fmt.Sprintf("C???@%s", p.point)
+		}
+	}
+	sort.SliceStable(s.parked, func(i, j int) bool { return s.parked[i].name < s.parked[j].name })
+	if os.Getenv("C13_DEBUG_LOG") != "" {
+		// determinism self-check: fingerprint of what is parked at every quiescent point
+		h := fnv.New64a()
+		fmt.Fprintf(h, "%x|", s.stateHash)
+		for _, p := range s.parked {
+			h.Write([]byte(p.name))
+			h.Write([]byte{0})
+		}
+		for _, qi := range s.queues {
+			if qi.q.refs.Load() < 0 {
+				continue // a dead queue's channel may already serve a younger queue
+			}
+			fmt.Fprintf(h, "q%d:%d:%d:%d;", qi.serial, qi.q.refs.Load(), len(qi.q.ch), qi.q.overflowLen.Load())
+		}
+		s.stateHash = h.Sum64()
+		if os.Getenv("C13_DEBUG_STEPS") != "" {
+			var b strings.Builder
+			for _, p := range s.parked {
+				b.WriteString(p.name + ",")
+			}
+			for _, qi := range s.queues {
+				fmt.Fprintf(&b, " q%d:%d:%d:%d", qi.serial, qi.q.refs.Load(), len(qi.q.ch), qi.q.overflowLen.Load())
+			}
+			last := ""
+			if len(s.trace) > 0 {
+				last = s.trace[len(s.trace)-1]
+			}
+			c13Debug("  step %d after %s: %s", len(s.trace), last, b.String())
 		}
 	}
 }
@@ -622,6 +678,19 @@ func (s *c13Sched) resume(p *c13Park) {
 			}
 		}
 	}
+	if p.prod == nil && p.point == "convoy.beforeOverflowPop" && !s.closed {
+		// The convoy is about to reach its blocking select. A stale wake token (left
+		// by an overflow enqueue whose task has been consumed meanwhile) together
+		// with an expired idle timer would make that select a coin toss of the Go
+		// runtime; the token only causes one spurious loop iteration, so take it out.
+		if qi := s.gidQueue[p.gid]; qi != nil && qi.q.refs.Load() >= 0 {
+			select {
+			case <-qi.q.wake:
+				s.classes["stale_wake_token_removed"] = true
+			default:
+			}
+		}
+	}
 	s.mu.Unlock()
 	s.tr("%s", p.name)
 	close(p.resume)
@@ -700,6 +769,9 @@ func (s *c13Sched) drawProducer(rt *rapid.T, known, knownOvf bool) *c13Prod {
 	case "one_nopark":
 		pr.tasks = []*c13Task{s.newTask(pr.key, pr.id, false)}
 	case "pair":
+		// one enqueue per scheduler step: whether the convoy sees the second task
+		// before or after it finds its channel empty must not be left to the Go scheduler
+		pr.mask["emit.afterEnqueue"] = true
 		pr.tasks = []*c13Task{s.newTask(pr.key, pr.id, rapid.Bool().Draw(rt, "park0")), s.newTask(pr.key, pr.id, rapid.Bool().Draw(rt, "park1"))}
 	case "burst":
 		pr.burst = true
@@ -967,6 +1039,7 @@ func c13TaskPoolCase(rt *rapid.T) {
 		rt.Fatalf("C13 task pool: %s\nschedule: %s", msg, s.tail())
 	}
 
+	c13Debug("CASE %016x steps=%d tasks=%d queues=%d closed=%v", s.stateHash, len(s.trace), len(s.tasks), len(s.queues), s.closed)
 	cl := c13SortedKeys(s.classes)
 	if excludedCase {
 		vkExcluded(c13UnitTask, "F5")
